@@ -36,6 +36,10 @@ def output_tags(out_src):
     tags = []
     if STMT_IF_IN_EXPR.search(out_src):
         tags.append("out:stmt-if-in-expr")
+    if re.search(r"except [\w.]+ as [\d\"(]", out_src):
+        tags.append("out:except-as-literal")
+    if re.search(r"def \w+\([^)\n]*\*\w+(: \w+)? = |def \w+\([^)\n]*\*\w+[^)\n]*\*\w+|def \w+\([^)\n]*= [^,)\n]+, \w+(: [\w\[\]]+)?[,)]", out_src):
+        tags.append("out:bad-parameter-list")
     return tags
 
 
